@@ -65,6 +65,20 @@ Qed.
 Lemma cmp_lt x y : x < y -> (x ?= y) = Lt. Proof. apply Z.compare_lt_iff. Qed.
 Lemma cmp_gt x y : y < x -> (x ?= y) = Gt. Proof. intros; apply Z.compare_gt_iff; assumption. Qed.
 
+(* closes the goals [c = (p ?= q)] / [c = if (p =? 0) && (q =? 0) then Eq else c'] with c a
+   constructor; leaves the two finite/finite same-sign goals *)
+Local Ltac fin :=
+  match goal with
+  | |- ?c = ?c => reflexivity
+  | |- Lt = (_ ?= _) => symmetry; apply cmp_lt; lia
+  | |- Gt = (_ ?= _) => symmetry; apply cmp_gt; lia
+  | |- Eq = (_ ?= _) => symmetry; apply Z.compare_eq_iff; lia
+  | |- _ = (if (?p =? 0) && (?q =? 0) then _ else _) =>
+      destruct (Z.eqb_spec p 0); destruct (Z.eqb_spec q 0); cbn [andb];
+      first [reflexivity | exfalso; lia]
+  | _ => idtac
+  end.
+
 (* statement over arbitrary validity proofs: free of the real-number axioms *)
 Theorem f_compare_Bcompare_FF a b Ha Hb :
   in_u64 a = true -> in_u64 b = true -> Model.is_nan a = false -> Model.is_nan b = false ->
@@ -74,15 +88,11 @@ Theorem f_compare_Bcompare_FF a b Ha Hb :
 Proof.
   intros Ua Ub Na Nb. rewrite Bcompare_FF2B.
   pose proof (aux_cases a Ua Na) as Ca. pose proof (aux_cases b Ub Nb) as Cb. cbv zeta in Ca, Cb.
-  unfold f_compare.
+  unfold f_compare. clear Ua Ub Na Nb Ha Hb.
   destruct Ca as [(-> & Ma)|[(-> & Ma)|(m1 & e1 & -> & He1 & Ma & Lm1 & Nm1)]];
   destruct Cb as [(-> & Mb)|[(-> & Mb)|(m2 & e2 & -> & He2 & Mb & Lm2 & Nm2)]];
   rewrite Ma, Mb; cbn [FF2SF SpecFloat.SFcompare]; f_equal;
-  destruct (f_sign a), (f_sign b); cbn [Z.eqb andb]; try reflexivity;
-  try (symmetry; first [apply cmp_lt; lia | apply cmp_gt; lia]);
-  try (destruct ((e1 + 1074) * 4503599627370496 + Z.pos m1) eqn:Z1; try lia; reflexivity);
-  try (destruct ((e2 + 1074) * 4503599627370496 + Z.pos m2) eqn:Z2; try lia;
-       cbn [Z.eqb andb]; rewrite ?andb_false_r; reflexivity).
+  destruct (f_sign a), (f_sign b); fin.
   all: change (Pos.compare_cont Eq m1 m2) with (Z.pos m1 ?= Z.pos m2).
   - destruct (Z.compare_spec e1 e2) as [->|Hlt|Hgt].
     + rewrite Z.add_compare_mono_l. symmetry. apply Z.compare_antisym.
